@@ -58,6 +58,7 @@ theorem recover_is_snapshot (s : St) (h : Reachable s) (when : Nat) (withVerify 
   rw [doRecover_spec (reachable_sinv h).inv when withVerify o]
   unfold heldAsOf retained
   rw [find_filter]
+  rfl
 
 /-- the same for recovery to standard output -/
 theorem recover_stdout_is_snapshot (s : St) (h : Reachable s) (when : Nat) (withVerify : Bool) :
@@ -68,11 +69,12 @@ theorem recover_stdout_is_snapshot (s : St) (h : Reachable s) (when : Nat) (with
   rw [doRecoverStdout_spec (reachable_sinv h).inv when withVerify]
   unfold heldAsOf retained
   rw [find_filter]
+  rfl
 
 /-- the newest backup is always held: a run that wrote a file is what `heldAsOf` returns for any
     date from its own on, until the next run (so `-k` never removes the backup just taken). -/
 theorem backup_is_held (s : St) (h : Reachable s) (o : BOpts) (now : Nat) (hnow : s.last < now)
-    (hq : o.quick = true → QuickDetectable s.repo s.src now)
+    (hq : o.quick = true → o.full = false → QuickDetectable s.repo s.src now)
     (hw : wroteFile (doBackup s.repo s.src o now).2 = true) (when : Nat) (hwhen : now ≤ when) :
     heldAsOf (backupStep s o now) when = some (now, s.src.committed) := by
   have hs := reachable_sinv h
@@ -91,7 +93,7 @@ theorem backup_is_held (s : St) (h : Reachable s) (o : BOpts) (now : Nat) (hnow 
     reproduce exactly `committed`, the bytes up to the end of the last complete transaction:
     whatever `tail` a transaction in progress has appended to the file, no byte of it is copied. -/
 theorem backup_only_complete_txns (s : St) (h : Reachable s) (o : BOpts) (now : Nat)
-    (hnow : s.last < now) (hq : o.quick = true → QuickDetectable s.repo s.src now)
+    (hnow : s.last < now) (hq : o.quick = true → o.full = false → QuickDetectable s.repo s.src now)
     (hw : wroteFile (doBackup s.repo s.src o now).2 = true) :
     doRecoverStdout (backupStep s o now).repo now false = (s.src.committed, none) := by
   rw [recover_stdout_is_snapshot _ (Reachable.backup o now h hnow hq),
@@ -101,7 +103,7 @@ theorem backup_only_complete_txns (s : St) (h : Reachable s) (o : BOpts) (now : 
     hence its committed part when no transaction is in progress — equals what the repository
     already reproduces: nothing committed is left out. -/
 theorem noop_loses_nothing (s : St) (h : Reachable s) (o : BOpts) (now : Nat)
-    (hnow : s.last < now) (hq : o.quick = true → QuickDetectable s.repo s.src now)
+    (hnow : s.last < now) (hq : o.quick = true → o.full = false → QuickDetectable s.repo s.src now)
     (hn : (doBackup s.repo s.src o now).2 = .noop) :
     (doBackup s.repo s.src o now).1 = s.repo ∧ s.src.raw = concat (findFiles s.repo now) := by
   have hs := reachable_sinv h
